@@ -53,7 +53,15 @@ for t, c in FT.items():
     U.add('qexp_' + t, [(c, 4)], [(c, 4)], 'stq(o, glm::exp(%s(a)));' % Q)
     U.add('dqlerp_' + t, [(c, 8), (c, 8), (c, 1)], [(c, 8)],
           'glm::tdualquat<%s> x(%s(a), %s(a+4)), y(%s(b), %s(b+4)); auto r = glm::lerp(x, y, c[0]); stq(o, r.real); stq(o+4, r.dual);' % (c, Q, Q, Q, Q))
-def units(tier): return [U]
+# the same wrappers under the two macros that change the quaternion memory order / the argument order of the 4-scalar constructor
+CFG_UNITS = {'wxyz': U.clone('c13_wxyz', defines=['GLM_FORCE_QUAT_DATA_WXYZ']), 'xyzwctor': U.clone('c13_xyzwctor', defines=['GLM_FORCE_QUAT_DATA_XYZW'])}
+def units(tier): return [U] + list(CFG_UNITS.values())
+def under(u, job):
+    """run a job of this module against another unit (every job runs in its own forked process, so rebinding the module global is local to it)"""
+    def run(S):
+        global U
+        U = u; job(S)
+    return run
 
 # ------------------------------------------------------------------------------------------------ specification-side helpers (pure mathematics, nothing shared with glm)
 def norm2(v):
@@ -585,4 +593,9 @@ def jobs(tier):
               ('acosdomain_' + t, job_acos_domain(t, ['slerp'] + [kname(k) for k in SPINS]))]
         for k in SPINS: J.append(('%s_%s' % (kname(k), t), job_slerp(t, kname(k), k=k)))
         for k in SPINS: J.append(('symmetry_%s_%s' % (kname(k), t), job_symmetry(t, kname(k), k)))
+    for cfg, u in CFG_UNITS.items():
+        for t in (FT if not q else list(FT)[:1]):
+            for nm, jb in (('slerp', job_slerp(t)), ('mix', job_slerp(t, 'mix', kind='mix')), ('lerp', job_lerp(t)), ('dqlerp', job_dqlerp(t)), ('shortmix', job_shortmix(t)), ('fastmix', job_fastmix(t)),
+                           ('squad', job_squad(t)), ('intermediate', job_intermediate(t)), (kname(1), job_slerp(t, kname(1), k=1))):
+                J.append(('%s_%s_%s' % (cfg, nm, t), under(u, jb)))
     return J
